@@ -320,3 +320,47 @@ def seq_elems(t):
     if t[0] == "call" and t[1] == "builtins.list" and len(t[2]) == 1:
         return seq_elems(t[2][0])
     return None
+
+
+def map_term(t, fn):
+    """Bottom-up rewrite of a term: fn is applied to every rebuilt node."""
+    if isinstance(t, tuple):
+        t = tuple(map_term(x, fn) for x in t)
+        if t and isinstance(t[0], str):
+            return fn(t)
+    return t
+
+
+def simp(t):
+    """Read-after-write:  store(b, k, v)[k] -> v"""
+    def f(x):
+        if x[0] == "sub" and isinstance(x[1], tuple) and x[1] and \
+                x[1][0] == "store" and x[1][2] == x[2]:
+            return x[1][3]
+        return x
+    return map_term(t, f)
+
+
+def select_ifexp(t, cond, outcome):
+    """Resolve conditional expressions on ``cond`` (or ``not cond``)."""
+    def f(x):
+        if x[0] == "ifexp":
+            c, neg = x[1], False
+            while c[0] == "un" and c[1] == "not":
+                c, neg = c[2], not neg
+            if c == cond:
+                return x[2] if (outcome != neg) else x[3]
+        return x
+    return map_term(t, f)
+
+
+def callee_of(t):
+    """(qualified callee name, positional args) of call / callv-by-name /
+    module-attribute call terms; None otherwise."""
+    if t[0] == "call":
+        return t[1], list(t[2])
+    if t[0] == "callv" and t[1][0] == "name":
+        return t[1][1], list(t[2])
+    if t[0] == "mcall" and t[1][0] == "name":
+        return f"{t[1][1]}.{t[2]}", list(t[3])
+    return None
